@@ -563,7 +563,8 @@ def judge_vcr(data: bytes, feds: list[dict], preserve: bool, res: Result) -> lis
             req = e["request"]
             diff("request.uri", req["uri"], fed["url"])
             diff("request.method", req["method"], fed["method"])
-            diff("request.headers", req["headers"], {k: [v] for k, v in fed["req_headers"].items()})
+            got_req_headers = {str(k).lower(): v for k, v in req["headers"].items()} if isinstance(req["headers"], dict) else req["headers"]
+            diff("request.headers", got_req_headers, {k.lower(): [v] for k, v in fed["req_headers"].items()})  # names are case-insensitive
             body = req.get("body")
             want = fed["req_body"]
             if preserve:
@@ -631,7 +632,8 @@ def judge_har(data: bytes, feds: list[dict], preserve: bool, res: Result) -> lis
             req = e["request"]
             diff("request.uri", req["url"], fed["url"])
             diff("request.method", req["method"], fed["method"])
-            diff("request.headers", [(h["name"], h["value"]) for h in req["headers"]], list(fed["req_headers"].items()))
+            diff("request.headers", [(h["name"].lower(), h["value"]) for h in req["headers"]],
+                 [(k.lower(), v) for k, v in fed["req_headers"].items()])
             post = req.get("postData")
             want = fed["req_body"]
             if want is None:
@@ -1119,6 +1121,11 @@ def drive_execute(stream: list) -> dict:
                     obs["outcome"] = {"kind": "raise", "error": type(exc).__name__, "where": _where(exc), "message": str(exc)[:200]}
         finally:
             executor.initialize_handlers = original
+        if not spy.shutdown_called and spy.ctx is not None:
+            # the loop did not reach `shutdown` (judged below); release the writer threads ourselves so that the harness can go on
+            for h in captured:
+                with contextlib.suppress(Exception):
+                    h.shutdown(spy.ctx)
         fin = finish_cassette_handlers(captured)
         obs["threads"] = [
             {"handler": f"{type(h).__name__}:{getattr(getattr(h, 'format', None), 'value', '')}", **fin[idx]}
@@ -1362,8 +1369,7 @@ def check_engine(item: dict, tier: str) -> Result:
     obs = drive_execute(stream)
     res.evaluations += 1
     res.traces += 1
-    res.states += len(run.events)
-    res.transitions += len(run.events)
+    res.count("engine_events", len(run.events))
     res.count("engine_runs")
     res.count("engine_scenarios", len(finished))
     if any(e.recorder.label == STATEFUL_LABEL for e in finished):
